@@ -40,6 +40,10 @@ type FileSpec struct {
 
 // Inv is one gxz invocation in structured form.
 type Inv struct {
+	// AlsoD (compress runs with -z only): -d is given as well, before or after
+	// -z (DAfterZ); "-z, --compress  force compression" wins in either order
+	AlsoD      bool     `json:"also_d,omitempty"`
+	DAfterZ    bool     `json:"d_after_z,omitempty"`
 	Decompress bool     `json:"d,omitempty"`
 	ZFlag      bool     `json:"z,omitempty"` // pass -z / --compress explicitly
 	Keep       bool     `json:"k,omitempty"`
@@ -73,8 +77,9 @@ func (v *Inv) Args() []string {
 			opts = append(opts, "-"+string(short))
 		}
 	}
-	add(v.Decompress, 'd', "decompress")
+	add(v.Decompress || (v.AlsoD && v.ZFlag && !v.DAfterZ), 'd', "decompress")
 	add(v.ZFlag, 'z', "compress")
+	add(v.AlsoD && v.ZFlag && v.DAfterZ && !v.Decompress, 'd', "decompress")
 	add(v.Keep, 'k', "keep")
 	add(v.Stdout, 'c', "stdout")
 	add(v.Force, 'f', "force")
